@@ -488,3 +488,35 @@ def run_check(scn_factory, scn_name, check_id, prop, tier, seed, budget_s, jobs,
     if rc == 0:
         print("OK property=%s held on everything explored" % prop)
     return rc
+
+
+class MultiScenario(object):
+    """Several scenario families behind one check; a program records which family it belongs to."""
+
+    def __init__(self, name, parts):
+        self.name = name
+        self.parts = parts  # [(weight, key, scenario)]
+        self.by_key = dict((k, s) for _, k, s in parts)
+        self.args = None
+
+    def generate(self, rng):
+        total = sum(w for w, _, _ in self.parts)
+        x = rng.random() * total
+        for w, k, s in self.parts:
+            x -= w
+            if x <= 0:
+                break
+        return {"part": k, "p": s.generate(rng)}
+
+    def run(self, program, decider, chooser=None):
+        s, viol, stats = self.by_key[program["part"]].run(program["p"], decider, chooser)
+        stats = dict(stats)
+        pr = dict(stats.get("probes") or {})
+        pr["family_" + program["part"]] = 1
+        stats["probes"] = pr
+        stats["states"] = set((program["part"],) + (x if isinstance(x, tuple) else (x,)) for x in (stats.get("states") or ()))
+        return s, viol, stats
+
+    def shrink_candidates(self, program):
+        for q in self.by_key[program["part"]].shrink_candidates(program["p"]):
+            yield {"part": program["part"], "p": q}
